@@ -263,25 +263,28 @@ def run_case(ck, desc):
     ck.count(f"fits.filter={desc['filter']}.window={desc['window']}")
 
     # every evaluation equals M x (the library's own variable-pressure recovery) - cumulative production
-    worst = 0.0
-    n_re = 0
-    for e in evals:
-        if e["raised"] is not None:
-            continue
-        if e["nodes"] is None:
-            # an evaluation that returned numbers without constructing a reservoir is judged like
-            # any other, at the resolution the probe evaluation used
-            ck.count("objective_evaluations_without_a_reservoir")
-        rf = _forward(pvt, e["p_initial"], e["tau"], np.asarray(e["days"], dtype=float), e["pf"], e["nodes"] or nodes)
-        want = e["M"] * rf - e["production"]
-        scale = max(e["M"], float(np.max(np.abs(e["production"]))))
-        err = float(np.max(np.abs(e["result"] - want))) / scale
-        worst = max(worst, err)
-        n_re += 1
-        if not ck.margin("objective = M rf(simulated) - cumulative", err, 1e-12):
-            ck.violation("objective-uses-forward-model", {"rel": err, "tau": e["tau"], "M": e["M"], "p_initial": e["p_initial"], "nodes": e["nodes"]}, desc)
-            break
-    ck.count("objective_evaluations_recomputed", n_re)
+    def judge_evaluations(evals_, stage=None):
+        worst_, n_re_ = 0.0, 0
+        for e in evals_:
+            if e["raised"] is not None:
+                continue
+            if e["nodes"] is None:
+                # an evaluation that returned numbers without constructing a reservoir is judged like
+                # any other, at the resolution the probe evaluation used
+                ck.count("objective_evaluations_without_a_reservoir")
+            rf = _forward(pvt, e["p_initial"], e["tau"], np.asarray(e["days"], dtype=float), e["pf"], e["nodes"] or nodes)
+            want = e["M"] * rf - e["production"]
+            scale = max(e["M"], float(np.max(np.abs(e["production"]))))
+            err = float(np.max(np.abs(e["result"] - want))) / scale
+            worst_ = max(worst_, err)
+            n_re_ += 1
+            if not ck.margin("objective = M rf(simulated) - cumulative", err, 1e-12):
+                ck.violation("objective-uses-forward-model", {"rel": err, "tau": e["tau"], "M": e["M"], "p_initial": e["p_initial"], "nodes": e["nodes"], **({"stage": stage} if stage else {})}, desc)
+                break
+        ck.count("objective_evaluations_recomputed", n_re_)
+        return worst_, n_re_
+
+    worst, n_re = judge_evaluations(evals)
     ck.note_max("node_count_seen", max(NODES) if NODES else 0)
 
     # limits
@@ -310,6 +313,7 @@ def run_case(ck, desc):
             prod, pvt, pressure_initial=guess, filter_window_size=desc["window"], pressure_imax=desc["imax"],
             inplace_max=inplace_max, filter_zero_prod_days=desc["filter"], n_iter=max(12, desc["n_iter"]), params=P,
         )
+    judge_evaluations(OBJ[:], "refit from previous Parameters")
     OBJ.clear()
     P2 = result2.params
     for nm, (lo, hi) in declared.items():
@@ -318,6 +322,28 @@ def run_case(ck, desc):
         if (P2[nm].min, P2[nm].max) != (lo, hi):
             ck.violation("declared-limits-kept-on-refit", {"param": nm, "limits": [P2[nm].min, P2[nm].max], "declared": [lo, hi]}, desc)
     ck.count("refits_from_previous_parameters")
+    # a refit with one parameter HELD at a value the caller trusts (the measured initial pressure, a
+    # volumetric M, an analogue's tau) while the first-guess argument says something else: the objective
+    # is still the forward model at the parameters of each evaluation, and the held one stays put
+    held = ("p_initial", "M", "tau")[desc["seed"] % 3]
+    P3 = result.params.copy()
+    held_value = {"p_initial": min(desc["imax"], max(hi_p, 0.97 * p_i)), "M": float(P3["M"].value), "tau": float(P3["tau"].value)}[held]
+    P3[held].set(value=held_value, vary=False)
+    guess3 = min(desc["imax"], max(hi_p * 1.02, 1.3 * held_value if held == "p_initial" else guess))
+    if guess3 <= float(np.max(np.asarray(pvt["pressure"], dtype=float))):
+        OBJ.clear()
+        with warnings.catch_warnings(), np.errstate(all="ignore"):
+            warnings.simplefilter("ignore")
+            result3 = fit_production_pressure(
+                prod, pvt, pressure_initial=guess3, filter_window_size=desc["window"], pressure_imax=desc["imax"],
+                inplace_max=inplace_max, filter_zero_prod_days=desc["filter"], n_iter=max(6, min(12, desc["n_iter"])), params=P3,
+            )
+        ev3 = OBJ[:]
+        OBJ.clear()
+        judge_evaluations(ev3, f"refit with {held} held")
+        if any(e[held] != held_value for e in ev3 if e["raised"] is None) or result3.params[held].value != held_value:
+            ck.violation("held-parameter-stays-put", {"held": held, "value": held_value, "seen": sorted({e[held] for e in ev3})[:3], "returned": float(result3.params[held].value)}, desc)
+        ck.count(f"refits_with_a_parameter_held.{held}")
     return bool(len(evals) >= 3 and n_re == len(evals)), {"evaluations": len(evals), "worst_rel": worst, "kept_rows": int(keep.sum()), "of": n, "fit": {k: P[k].value for k in ("tau", "M", "p_initial")}}
 
 
